@@ -39,7 +39,12 @@ RULE = ("ls: free problems (defect>0; dense with planted dependent columns, leve
         "decision) x {env,chol,gso,svd} x {solver,adj}; a case is distinct by problem text + subset + algorithm + entry and "
         "non-trivial when the subset is a proper subset or the covariance is correlated. net: free levelling / 2D "
         "(direction+distance, distance, direction, angle+distance) / 3D networks x 2 different admissible constrained "
-        "point sets x 4 algorithms through gama-local; distinct by gkf text + algorithm")
+        "point sets x 4 algorithms through gama-local (one third with a planted gross error that gama-local removes); "
+        "distinct by gkf text + algorithm. svdsub: dense problems with 2..4 planted dependent columns x subsets of size "
+        "defect-1, defect (5 per problem), defect+1, defect+2 for the svd solver; distinct by problem + subset. minx: "
+        "generated networks (levelling, 2D, 3D, vectors, isolated point; statuses fixed/adjusted/constrained at random, "
+        "one planted gross error) x scripted histories of project_equations() calls; distinct by gkf + script, "
+        "non-trivial when a coordinate is constrained")
 LEVEL_TEXT = ("Lean 4 theorems (Props/C08.lean) about ANY two least-squares solutions (x,v,rtr), (x',v',rtr') of the same "
               "weighted problem (A,b,P), P symmetric positive definite, regularised over subsets S, S': v = v', rtr = rtr', "
               "A x = A x', x - x' in ker A, A Q A' identical for all generalised inverses of A'PA, dof a function of A "
@@ -47,11 +52,23 @@ LEVEL_TEXT = ("Lean 4 theorems (Props/C08.lean) about ANY two least-squares solu
               "all sizes, weights, defects, subsets, over every linearly ordered field. They apply to each solver model "
               "through the C01 theorems (model output satisfies IsLSSolution). Tie: C01's model/implementation "
               "correspondence with several subsets per free problem, plus exact-rational and network-level "
-              "(gama-local) metamorphic oracles on the implementation.")
+              "(gama-local) metamorphic oracles on the implementation. Round 3: executable model of "
+              "LocalNetwork::project_equations' numbering of the unknowns and construction of min_x_/min_n_ "
+              "(Model/MinX.lean; recursion through singular_coords) with theorems for every state and every history of "
+              "calls (the list handed to the solver is exactly the non-zero indexes the CURRENT numbering gives to the "
+              "constrained coordinates, has length min_n_, distinct entries in 1..n, does not depend on what earlier calls "
+              "left behind; another observation order renumbers it by a bijection), tied by harness/c08_minx.cpp (real "
+              "LocalNetwork, friend probe) vs lean/Driver/MinX.lean on scripted histories (outlier removal, observation / "
+              "point removal, re-linearisation); per-solver instances of the datum theorems (env, chol, gso, svd, Adj); "
+              "SVD::min_subset_x: minimal subset norm for any defect (certificate hypothesis) tied by an svd stream with "
+              "defect 2-4 and subsets of size exactly = defect.")
 LEVEL_NOTE = ("Exact-arithmetic statements; IEEE rounding is outside. 'All distances and angles between adjusted points are "
               "the same' is proved to first order only (difference of the two solutions is a kernel vector = "
               "infinitesimal similarity); to printed precision after iteration it is checked by the network oracle, not "
-              "proved. LocalNetwork::project_equations' construction of the min_x list is tied by the network oracle only.")
+              "proved. In Model/MinX.lean the set of revised observations and the numeric half of singular_coords "
+              "(1 - |cos| < 1e-12) are a parameter (World) the theorems quantify over; the driver runs the structural part "
+              "of LocalRevision and the generator avoids histories in which the numeric test could fire. The svd theorems "
+              "take the factorisation A = U W V' as a certificate (checked numerically per run by C01/C20).")
 TECHNIQUE = "Lean 4 proof (Mathlib matrices over an ordered field) + model/implementation correspondence + metamorphic oracles"
 MODELLED = c01p.MODELLED + ["gama-local's iteration of the linearisation and its text/XML output (observed, not modelled)"]
 ASSUMPTIONS = c01p.ASSUMPTIONS + ["network oracle: generated networks are well determined apart from the datum defect "
